@@ -163,6 +163,8 @@ func init() {
 		Prop{
 			ID: "C04",
 			Runs: []Run{
+				{Harness: "packageonly.ZZC04Kernel2", Desc: "allow-list decision kernel (find{Type,Function,Method}Violation over util.AttachmentsMap) for ARBITRARY allow-list entries and an arbitrary user package path and name (opaque atoms): up to two @packageonly lines on items of two declaring packages (kind, package, item and receiver from a two-name alphabet, 1-2 entries each plus the declaring package), one scoped marker (6 tokens, any range), already-reported flag; violation iff annotated, foreign, neither path nor name in the UNION of the item's lists, not suppressed, not yet reported", Bounds: map[string]interface{}{"annotation_lines": "0..2", "entries_per_line": "1..2 + declaring package", "names": "2-letter alphabet for items, atoms for entries/user"}},
+				{Harness: "packageonly.ZZC04Kernel3", Tier: "thorough", Desc: "the same with up to three lines (93 k paths)", Bounds: map[string]interface{}{"annotation_lines": "0..3"}},
 				{Harness: "zzverif/zzh.ZZC04Cross", Desc: "references from package u (path zzmod/u, name u) to @packageonly type/function/method of d: call, method call, method value, type in parameter/literal/var/field; allow-list shapes symbolic (bare, by name, by path, several entries + trailing comma, second annotation line = union, look-alike names, absent); same-package uses in d", Bounds: map[string]interface{}{"skeleton": "c04SrcD + c04SrcU", "holes": 4, "allow_list_spellings": "6 x 3 x 5 x 4"}},
 			},
 			Outside:     []string{"dot-imports; generic items; references through type aliases (see C13)"},
